@@ -222,10 +222,26 @@ def run_pool(prop_mod, verif_seed, nruns, tier, workers, wall_cap, run_timeout=1
 # minimisation
 # ------------------------------------------------------------------------------------------
 
+def same_violation(res, target):
+    """The violation in res that is 'the same' as target: same class and signature; when violations
+    carry sig_base/flags (risk flags), same base and a subset of the target's flags."""
+    if not isinstance(res, dict):
+        return None
+    for v in res.get('violations', ()):
+        if v['cls'] != target['cls']:
+            continue
+        if 'sig_base' in target:
+            if v.get('sig_base') == target['sig_base'] and set(v.get('flags', ())) <= set(target.get('flags', ())):
+                return v
+        elif v['signature'] == target['signature']:
+            return v
+    return None
+
+
 class Minimiser:
     def __init__(self, arm, target, budget_s=60.0, parallel=8, run_timeout=60.0):
         self.arm = arm
-        self.target = target          # (cls, signature)
+        self.target = target          # the violation dict being minimised
         self.deadline = time.time() + budget_s
         self.parallel = parallel
         self.run_timeout = run_timeout
@@ -234,10 +250,7 @@ class Minimiser:
     def _matches(self, res):
         if not isinstance(res, dict):
             return False
-        for v in res.get('violations', ()):
-            if (v['cls'], v['signature']) == self.target:
-                return True
-        return False
+        return same_violation(res, self.target) is not None
 
     def fails_many(self, cases):
         """Returns index of the first case that still fails the same way, or None."""
@@ -439,55 +452,51 @@ def run_check(prop_mod, tier, verif_seed, nruns=None, workers=None, wall_cap=Non
         arm_name, cls, signature = key
         entries = sorted(groups[key], key=lambda e: (e[0], e[3]))
         size, case, viol, i = entries[0]
+        arm = arms[arm_name]
         k = match_known(known, prop_mod.ID, arm_name, viol)
-        if k is not None:
+        min_first = getattr(arm, 'MINIMISE_BEFORE_KNOWN', False)
+        if k is not None and not min_first:
             known_hits.append((k, key, len(entries), viol))
             continue
         # minimise + write replay
-        arm = arms[arm_name]
         budget = minimise_budget if minimise_budget is not None else cfg.get('minimise_budget', 45.0)
+        if k is not None:
+            budget = min(budget, cfg.get('known_minimise_budget', 8.0))
         mini = case
         mexec = 0
         if budget > 0 and case is not None:
-            m = Minimiser(arm, (cls, signature), budget_s=budget, parallel=min(16, workers))
+            m = Minimiser(arm, viol, budget_s=budget, parallel=min(16, workers))
             try:
                 mini = m.minimise(case)
             except Exception:
                 mini = case
             mexec = m.executions
         st, final = fork_call(lambda: execute(arm, mini))
-        fv = None
-        if st == 'ok':
-            for v in final.get('violations', ()):
-                if (v['cls'], v['signature']) == (cls, signature):
-                    fv = v
+        fv = same_violation(final, viol) if st == 'ok' else None
         if fv is None:      # minimised case does not replay: fall back to the original
             mini = case
             st, final = fork_call(lambda: execute(arm, mini))
-            if st == 'ok':
-                for v in final.get('violations', ()):
-                    if (v['cls'], v['signature']) == (cls, signature):
-                        fv = v
-        # a minimised case may match a known finding even if the raw one did not
-        if fv is not None:
-            k = match_known(known, prop_mod.ID, arm_name, fv)
-            if k is not None:
-                known_hits.append((k, key, len(entries), fv))
-                continue
+            fv = same_violation(final, viol) if st == 'ok' else None
+        # known findings are predicates over the minimised case
+        k = match_known(known, prop_mod.ID, arm_name, fv if fv is not None else viol)
+        if k is not None:
+            known_hits.append((k, key, len(entries), fv or viol))
+            continue
+        fcls, fsig = (fv or viol)['cls'], (fv or viol)['signature']
         os.makedirs(replay_dir, exist_ok=True)
-        path = os.path.join(replay_dir, '%s-%s.json' % (arm_name, sig_hash(cls + '|' + signature)))
+        path = os.path.join(replay_dir, '%s-%s.json' % (arm_name, sig_hash(fcls + '|' + fsig)))
         with open(path, 'w') as fp:
             json.dump({'format': 1, 'property': prop_mod.ID, 'arm': arm_name, 'verif_seed': verif_seed,
                        'run': i, 'tier': tier, 'pythonhashseed': os.environ.get('PYTHONHASHSEED'),
                        'case': mini,
-                       'verdict': {'cls': cls, 'signature': signature,
+                       'verdict': {'cls': fcls, 'signature': fsig,
                                    'detail': (fv or viol).get('detail'),
                                    'features': (fv or viol).get('features', []),
                                    'digest': final.get('digest') if st == 'ok' and fv is not None else None,
                                    'reproduced_after_minimisation': fv is not None},
                        'occurrences_in_batch': len(entries), 'minimiser_executions': mexec},
                       fp, indent=1, default=str)
-        violations.append((key, path, fv or viol, len(entries)))
+        violations.append(((arm_name, fcls, fsig), path, fv or viol, len(entries)))
 
     wall = time.time() - t0
     out_lines = []
@@ -499,7 +508,11 @@ def run_check(prop_mod, tier, verif_seed, nruns=None, workers=None, wall_cap=Non
         out_lines.append('KNOWN-FINDING: property=%s %s [%s] (%d runs; e.g. %s)' % (
             prop_mod.ID, k['what'], k['id'], sum(x[2] for x in known_hits if x[0]['id'] == k['id']),
             str(viol.get('detail'))[:160]))
+    seen_paths = set()
     for key, path, viol, n in violations:
+        if path in seen_paths:
+            continue
+        seen_paths.add(path)
         out_lines.append('VIOLATION property=%s replay=%s' % (prop_mod.ID, path))
         out_lines.append('  class=%s signature=%s occurrences=%d detail=%s' % (
             key[1], key[2], n, str(viol.get('detail'))[:300]))
